@@ -18,7 +18,7 @@ import (
 
 // One scripted operation on a real Watcher.
 type c19Ev struct {
-	Kind  string              `json:"k"` // sub | watch | watchfail | notify | drain | end
+	Kind  string              `json:"k"`              // sub | watch | watchfail | notify | drain | end
 	Fail  bool                `json:"fail,omitempty"` // end: the watch function returns an error instead of nil
 	Iface uint64              `json:"iface,omitempty"`
 	Mask  uint64              `json:"mask,omitempty"`
@@ -369,7 +369,7 @@ func TestVerifC19(t *testing.T) {
 		"watch-after-end": {{Kind: "sub", Iface: 1, Mask: 2}, {Kind: "watch"}, {Kind: "end"}, {Kind: "watch"}, {Kind: "drain", I: 0, N: 2}},
 		"subscribe-after-end": {{Kind: "sub", Iface: 1, Mask: 127}, {Kind: "watch"}, {Kind: "end"},
 			{Kind: "sub", Iface: 1, Mask: 127}, {Kind: "drain", I: 0, N: 1}, {Kind: "drain", I: 1, N: 1}},
-		"never-watched":    {{Kind: "sub", Iface: 1, Mask: 127}, {Kind: "drain", I: 0, N: 1}},
+		"never-watched": {{Kind: "sub", Iface: 1, Mask: 127}, {Kind: "drain", I: 0, N: 1}},
 		// the watch function fails: before any event (at once: unsupported OS, dial failure; or later), after events
 		"fail-at-once": {{Kind: "sub", Iface: 1, Mask: 127}, {Kind: "sub", Iface: 2, Mask: 2}, {Kind: "sub", Iface: 1, Mask: 127}, {Kind: "watchfail"},
 			{Kind: "drain", I: 0, N: 2}, {Kind: "drain", I: 1, N: 2}, {Kind: "drain", I: 2, N: 2}},
